@@ -52,9 +52,28 @@ crate::harnesses! {
     #[cfg_attr(kani, kani::unwind(9))]
     fn facade_i16_all() { facade_int!(i16, 6) }
 
-    /// parse facade == core parse on arbitrary bytes (u8/i8), len <= 3.
+    /// parse facade == core parse on arbitrary bytes (u8/i8), len <= 2.
     /// @prop C17
     /// @feat default
+    /// @bound input length <= 2 bytes (all byte values)
+    /// @fn lexical::parse / lexical::parse_partial
+    #[cfg_attr(kani, kani::unwind(5))]
+    fn facade_parse_eq_core_len2() {
+        let bytes: [u8; 2] = any();
+        let len: usize = any();
+        assume(len <= 2);
+        let s = &bytes[..len];
+        vcheck!(lexical::parse::<u8, _>(s) == lexical_core::parse::<u8>(s), "lexical::parse == lexical_core::parse (u8)");
+        vcheck!(lexical::parse::<i8, _>(s) == lexical_core::parse::<i8>(s), "lexical::parse == lexical_core::parse (i8)");
+        vcheck!(lexical::parse_partial::<i8, _>(s) == lexical_core::parse_partial::<i8>(s), "lexical::parse_partial == lexical_core::parse_partial (i8)");
+        cover(len == 2);
+    }
+
+    /// parse facade == core parse on arbitrary bytes (u8/i8), len <= 3.
+    /// @prop C17
+    /// @tier thorough
+    /// @feat default
+    /// @timeout 2400
     /// @bound input length <= 3 bytes (all byte values)
     /// @fn lexical::parse / lexical::parse_partial
     #[cfg_attr(kani, kani::unwind(6))]
